@@ -40,6 +40,8 @@ type ctxExtra struct {
 	freshErrs   []string
 	lastDirect  map[string][]types.Object
 	lastIndirect map[string]bool
+	lastExprs   map[string][]ast.Expr
+	callOcc     map[*ast.CallExpr]int
 	loopIndex   map[ast.Node]int
 	curLoop     ast.Node
 }
@@ -59,6 +61,7 @@ func newCtx(e *Engine, fi *FuncInfo) *Ctx {
 	c.ptrField = map[string]int{}
 	c.lastDirect = map[string][]types.Object{}
 	c.lastIndirect = map[string]bool{}
+	c.lastExprs = map[string][]ast.Expr{}
 	if fi.Contract != nil {
 		c.props = fi.Contract.Props
 		c.bv = fi.Contract.ModeBV
